@@ -146,6 +146,32 @@ class SSM(OneShotTask, DebugContents):
         # set the context
         self.segmentAPDU = apdu
 
+    def set_segment_size(self, max_apdu, unsegmented_header, segmented_header):
+        """Compute the segment size and count of the segmentation context so
+        that no APDU, fixed header included, is longer than max_apdu.  Returns
+        False if not even a single octet of content would fit."""
+        if _debug: SSM._debug("set_segment_size %r %r %r", max_apdu, unsegmented_header, segmented_header)
+
+        data_len = len(self.segmentAPDU.pduData)
+
+        # the whole thing fits in an unsegmented APDU
+        if data_len + unsegmented_header <= max_apdu:
+            self.segmentSize = max_apdu - unsegmented_header
+            self.segmentCount = 1
+            return True
+
+        # what is left of each APDU after the header of a segment
+        self.segmentSize = max_apdu - segmented_header
+        if self.segmentSize <= 0:
+            return False
+
+        # split into chunks, maybe need one more
+        self.segmentCount, more = divmod(data_len, self.segmentSize)
+        if more:
+            self.segmentCount += 1
+
+        return True
+
     def get_segment(self, indx):
         """This function returns an APDU coorisponding to a particular
         segment of a confirmed request or complex ack.  The segmentAPDU
@@ -307,35 +333,34 @@ class ClientSSM(SSM):
         # save the request and set the segmentation context
         self.set_segmentation_context(apdu)
 
-        # if the max apdu length of the server isn't known, assume that it
-        # is the same size as our own and will be the segment size
-        if (not self.device_info) or (self.device_info.maxApduLengthAccepted is None):
-            self.segmentSize = self.maxApduLengthAccepted
-
-        # if the max npdu length of the server isn't known, assume that it
-        # is the same as the max apdu length accepted
-        elif self.device_info.maxNpduLength is None:
-            self.segmentSize = self.device_info.maxApduLengthAccepted
-
-        # the segment size is the minimum of the size of the largest packet
-        # that can be delivered to the server and the largest it can accept
-        else:
-            self.segmentSize = min(self.device_info.maxNpduLength, self.device_info.maxApduLengthAccepted)
-        if _debug: ClientSSM._debug("    - segment size: %r", self.segmentSize)
-
         # save the invoke ID
         self.invokeID = apdu.apduInvokeID
         if _debug: ClientSSM._debug("    - invoke ID: %r", self.invokeID)
 
-        # compute the segment count
-        if not apdu.pduData:
-            # always at least one segment
-            self.segmentCount = 1
+        # if the max apdu length of the server isn't known, assume that it
+        # is the same size as our own
+        if (not self.device_info) or (self.device_info.maxApduLengthAccepted is None):
+            max_apdu = self.maxApduLengthAccepted
+
+        # if the max npdu length of the server isn't known, assume that it
+        # is the same as the max apdu length accepted
+        elif self.device_info.maxNpduLength is None:
+            max_apdu = self.device_info.maxApduLengthAccepted
+
+        # the minimum of the size of the largest packet that can be delivered
+        # to the server and the largest it can accept
         else:
-            # split into chunks, maybe need one more
-            self.segmentCount, more = divmod(len(apdu.pduData), self.segmentSize)
-            if more:
-                self.segmentCount += 1
+            max_apdu = min(self.device_info.maxNpduLength, self.device_info.maxApduLengthAccepted)
+        if _debug: ClientSSM._debug("    - max apdu: %r", max_apdu)
+
+        # compute the segment size and count, the header of a confirmed
+        # request is four octets, six when it is segmented
+        if not self.set_segment_size(max_apdu, 4, 6):
+            if _debug: ClientSSM._debug("    - server can't receive a segment")
+            abort = self.abort(AbortReason.apduTooLong)
+            self.response(abort)
+            return
+        if _debug: ClientSSM._debug("    - segment size: %r", self.segmentSize)
         if _debug: ClientSSM._debug("    - segment count: %r", self.segmentCount)
 
         # make sure we support segmented transmit if we need to
@@ -796,23 +821,22 @@ class ServerSSM(SSM):
             # save the response and set the segmentation context
             self.set_segmentation_context(apdu)
 
-            # the segment size is the minimum of the size of the largest packet
-            # that can be delivered to the client and the largest it can accept
+            # the minimum of the size of the largest packet that can be
+            # delivered to the client and the largest it can accept
             if (not self.device_info) or (self.device_info.maxNpduLength is None):
-                self.segmentSize = self.maxApduLengthAccepted
+                max_apdu = self.maxApduLengthAccepted
             else:
-                self.segmentSize = min(self.device_info.maxNpduLength, self.maxApduLengthAccepted)
-            if _debug: ServerSSM._debug("    - segment size: %r", self.segmentSize)
+                max_apdu = min(self.device_info.maxNpduLength, self.maxApduLengthAccepted)
+            if _debug: ServerSSM._debug("    - max apdu: %r", max_apdu)
 
-            # compute the segment count
-            if not apdu.pduData:
-                # always at least one segment
-                self.segmentCount = 1
-            else:
-                # split into chunks, maybe need one more
-                self.segmentCount, more = divmod(len(apdu.pduData), self.segmentSize)
-                if more:
-                    self.segmentCount += 1
+            # compute the segment size and count, the header of a complex
+            # ack is three octets, five when it is segmented
+            if not self.set_segment_size(max_apdu, 3, 5):
+                if _debug: ServerSSM._debug("    - client can't receive a segment")
+                abort = self.abort(AbortReason.apduTooLong)
+                self.response(abort)
+                return
+            if _debug: ServerSSM._debug("    - segment size: %r", self.segmentSize)
             if _debug: ServerSSM._debug("    - segment count: %r", self.segmentCount)
 
             # make sure we support segmented transmit if we need to
